@@ -5,6 +5,7 @@ import (
 	"path/filepath"
 	"sort"
 	"strings"
+	"sync"
 	"unicode"
 
 	apb "github.com/google/fhir/go/proto/google/fhir/proto/annotations_go_proto"
@@ -21,6 +22,8 @@ import (
 // behaviour) and their annotated trees (static: donors are always taken from
 // the pristine trees).
 type Pool struct {
+	idxMu sync.Mutex
+	idx   map[string]map[string][]int
 	Names []string
 	JSON  map[string][]byte
 	Ann   map[string]*lib.Annotated
@@ -48,6 +51,21 @@ func loadPool() *Pool {
 		p.Msg[rf.Name] = m
 	}
 	return p
+}
+
+// hashIdx is the (content hash, type) -> address index of a pristine tree.
+func (p *Pool) hashIdx(name string) map[string][]int {
+	p.idxMu.Lock()
+	defer p.idxMu.Unlock()
+	if p.idx == nil {
+		p.idx = map[string]map[string][]int{}
+	}
+	if m, ok := p.idx[name]; ok {
+		return m
+	}
+	m := hashIndex(p.Ann[name].Root, 0)
+	p.idx[name] = m
+	return m
 }
 
 // Fresh parses a new copy of a model resource.
